@@ -590,7 +590,24 @@ class Interp:
         return out
 
     def read(self, arr, idx):
-        # a read of a locally stored scalar cell that we know (straight-line forwarding) is not attempted:
+        """element read with store-to-load forwarding for the same symbolic index in straight-line code"""
+        cells = getattr(self, 'cells', None)
+        if cells:
+            key = (arr.name, tuple(i.canon_key() for i in idx))
+            hit = cells.get(key)
+            if hit is not None:
+                val, g, nloops = hit
+                if nloops == len(self.loops) and tuple(cond_key(x) for x in self.guards[:len(g)]) == g and isinstance(val, Rat):
+                    return val
+                # the cell was (maybe) overwritten on another path: its content is not the initial one
+                self.fresh += 1
+                return Rat.atom(App('cell?', [arr.name] + list(idx) + [Rat.const(self.fresh)]))
+            if any(k[0] == arr.name for k in cells):
+                # another index of this array was stored: it may be the same cell
+                other = [k for k in cells if k[0] == arr.name]
+                if any(_may_alias(k[1], key[1]) for k in other):
+                    self.fresh += 1
+                    return Rat.atom(App('cell?', [arr.name] + list(idx) + [Rat.const(self.fresh)]))
         return Rat.atom(App('read', [arr.name] + list(idx)))
 
     def ev_Call(self, e):
@@ -946,6 +963,14 @@ class Interp:
                 arr.init = ('full', value)
             else:
                 arr.init = ('full', value)
+        if not hasattr(self, 'cells'):
+            self.cells = {}
+        if idx == 'all' or not (isinstance(idx, tuple) and all(isinstance(i, Rat) for i in idx)):
+            for k in [k for k in self.cells if k[0] == arr.name]:
+                del self.cells[k]
+        else:
+            key = (arr.name, tuple(i.canon_key() for i in idx))
+            self.cells[key] = (value if isinstance(value, Rat) else None, tuple(cond_key(x) for x in self.guards), len(self.loops))
         self.k.stores.append(Store(arr, idx, value, list(self.guards), list(self.loops), node))
 
     def st_If(self, s):
@@ -1063,6 +1088,9 @@ class Interp:
         self.loops.append(loop)
         self.block(s.body)
         self.loops.pop()
+        if hasattr(self, 'cells'):
+            for kk in [kk for kk, vv in self.cells.items() if vv[2] > len(self.loops)]:
+                self.cells[kk] = (None, ('stale',), -1)
         for n in assigned:
             post = self.env.get(n)
             if n in accs and n in carried and isinstance(post, Rat) and isinstance(pre[n], (Rat, tuple)) \
@@ -1176,6 +1204,28 @@ def shape_sym(name, i):
 
 def _nonneg_atom(a):
     return isinstance(a, App) and a.name in ('shape', 'len', 'size')
+
+
+def _may_alias(k1, k2):
+    """two symbolic index tuples may denote the same cell unless some component differs by a non-zero constant"""
+    if len(k1) != len(k2):
+        return True
+    return not any(a != b and _const_diff(a, b) for a, b in zip(k1, k2))
+
+
+def _const_diff(a, b):
+    # canonical keys: ('R', numerator key, denominator key); equal denominators and numerators differing only in the
+    # constant term denote indices that differ by a non-zero constant
+    try:
+        na, da = dict(a[1]), a[2]
+        nb, db = dict(b[1]), b[2]
+    except Exception:
+        return False
+    if da != db:
+        return False
+    ra = {k: v for k, v in na.items() if k != ()}
+    rb = {k: v for k, v in nb.items() if k != ()}
+    return ra == rb and na.get(()) != nb.get(())
 
 
 def _conj(a, b):
